@@ -40,10 +40,13 @@ def tlc_inputs(ctx):
     ntr = int(os.environ.get("VERIF_C08_TRACES", "80" if ctx.quick else "1200"))
 
     def design(_):
-        return ctx.tlc_must_pass("Abi", "MC_Abi_mc_%s.cfg" % tier, workers=4 if ctx.quick else 8, timeout=3000, heap="2g" if ctx.quick else "4g")
+        r = L.tlc_cached(ctx, "Abi", "MC_Abi_mc_%s.cfg" % tier, workers=4 if ctx.quick else 8, timeout=3000, heap="2g" if ctx.quick else "4g")
+        if not r.ok:
+            raise vlib.MachineryError("design-level model Abi/MC_Abi_mc_%s.cfg rejected:\n%s" % (tier, r.out[-4000:]))
+        return r
 
     def gen(_):
-        g = ctx.tlc("Layout", "MC_Abi_gen.cfg", workers=4, simulate=ntr, depth=50, timeout=2400)
+        g = L.tlc_cached(ctx, "Layout", "MC_Abi_gen.cfg", workers=4, simulate=ntr, depth=50, timeout=2400)
         if not g.ok:
             raise vlib.MachineryError("aggregate generator failed: %s" % g.out[-2000:])
         return g
@@ -60,7 +63,7 @@ def tlc_inputs(ctx):
         for t in pool:
             f.write(json.dumps(t) + "\n")
     nsig = int(os.environ.get("VERIF_C08_SIGTRACES", "40" if ctx.quick else "600"))
-    s = ctx.tlc("Abi", "MC_Abi_sig.cfg", workers=4, simulate=nsig, depth=120, env={"ABI_IN": inp}, timeout=2400)
+    s = L.tlc_cached(ctx, "Abi", "MC_Abi_sig.cfg", workers=4, simulate=nsig, depth=120, env={"ABI_IN": inp}, timeout=2400)
     if not s.ok:
         raise vlib.MachineryError("signature generator failed: %s" % s.out[-2000:])
     sigs = [json.loads(v) for v in dict.fromkeys(s.vcases)]
@@ -80,6 +83,8 @@ def ref_c(p, k, role, j):
         return L.SC_C[p["n"]] + " %s", "g_%s" % p["n"]
     if p["k"] == "arr":
         return L.SC_C[p["n"]] + " %s[4]", "ga_%s" % p["n"]
+    if p["k"] == "valist":
+        return "__builtin_va_list %s", "g_valist"
     return "struct_or_union A%d %%s" % p["i"], "gA%d" % p["i"]
 
 
@@ -113,6 +118,7 @@ class SigTU:
                 out.append("extern %s;" % ((L.SC_C[n] + " %s") % ("g_" + n)))
         for n in ("char", "int", "double"):
             out.append("extern %s ga_%s[4];" % (L.SC_C[n], n))
+        out.append("extern __builtin_va_list g_valist;")
         for k, s in enumerate(self.sigs, self.base):
             params = [self.tname(p, "a%d" % j)[0] for j, p in enumerate(s["ps"])]
             plist = ", ".join(params) if params else "void"
@@ -146,6 +152,7 @@ def qterm(tdef, types):
 
 
 _RE_AGG = re.compile(r"^:A(\d+)\.\d+$")
+_RE_VAL = re.compile(r"^:va_list\.\d+$")
 
 
 def cls_norm(c):
@@ -154,7 +161,14 @@ def cls_norm(c):
     m = _RE_AGG.match(c)
     if m:
         return [":", int(m.group(1))]
+    if _RE_VAL.match(c):
+        return [":", "va_list"]
     return [c]
+
+
+def expect(s, which, target):
+    """TLC's expected classes with the target dependent va_list class filled in (Abi.tla VaListClass)"""
+    return [s["valist"][target] if c == ["valist"] else c for c in s[which]]
 
 
 def check_tu(ctx, objdir, tu, descrs, stats):
@@ -176,6 +190,8 @@ def check_tu(ctx, objdir, tu, descrs, stats):
                 if m:
                     i = int(m.group(1))
                     descrs.setdefault((i, target), qterm(t, types))
+                elif _RE_VAL.match(t["name"]):
+                    descrs.setdefault((0, target), qterm(t, types))
             for k, s in enumerate(tu.sigs, tu.base):
                 judge_sig(ctx, target, k, s, funcs, src, stats)
 
@@ -185,14 +201,15 @@ def judge_sig(ctx, target, k, s, funcs, src, stats):
     ctx.count("sig" + target + vlib.canon([s["ret"], s["ps"], s["xs"], s["va"]]), nontrivial=len(s["ps"]) >= 1)
     f = funcs.get("f%d" % k)
     c = funcs.get("c%d" % k)
+    pcls, xcls = expect(s, "pcls", target), expect(s, "xcls", target)
     info = {"target": target, "signature": {x: s[x] for x in ("ret", "ps", "xs", "va")},
-            "expected": {"ret": s["rcls"], "params": s["pcls"], "extra": s["xcls"], "marker": s["marker"]}}
+            "expected": {"ret": s["rcls"], "params": pcls, "extra": xcls, "marker": s["marker"]}}
     if f is None or c is None:
         ctx.violation("sig:%s:missing-function" % target, "definition or caller missing from the IL", dict(info, source=src[-1500:]))
         return
     # definition
     got = {"ret": cls_norm(f["ret"]), "params": [cls_norm(p["cls"]) for p in f["params"]], "variadic": f["variadic"]}
-    if got["ret"] != s["rcls"] or got["params"] != s["pcls"] or got["variadic"] != s["va"]:
+    if got["ret"] != s["rcls"] or got["params"] != pcls or got["variadic"] != s["va"]:
         what = "ret" if got["ret"] != s["rcls"] else "variadic" if got["variadic"] != s["va"] else "param"
         ctx.violation("sig:%s:definition:%s" % (target, what), "function header classes differ from Abi.tla PClass", dict(info, observed=got))
     # call site
@@ -208,7 +225,7 @@ def judge_sig(ctx, target, k, s, funcs, src, stats):
         else:
             args.append(cls_norm(a["cls"]))
     got = {"ret": cls_norm(call["cls"]) if call["res"] else [], "args": args, "marker": marker}
-    want_args = s["pcls"] + s["xcls"]
+    want_args = pcls + xcls
     if got["ret"] == s["rcls"] and got["args"] == want_args and got["marker"] == s["marker"]:
         return
     info["observed_call"] = got
@@ -223,8 +240,9 @@ def judge_sig(ctx, target, k, s, funcs, src, stats):
 
 
 # --------------------------------------------------------------------------------------------------
-def judge_descriptors(ctx, pool, descrs):
-    recs = [{"i": i, "tg": tg, "t": pool[i - 1], "q": q} for (i, tg), q in sorted(descrs.items())]
+def judge_descriptors(ctx, pool, descrs, valist_t):
+    pool = pool + [valist_t]          # index 0 (= -1 + 1 from the end) is the aarch64 va_list
+    recs = [{"i": i, "tg": tg, "t": pool[i - 1] if i else valist_t, "q": q} for (i, tg), q in sorted(descrs.items())]
     inp = ctx.path("abi_judge.ndjson")
     with open(inp, "w") as f:
         for r in recs:
@@ -370,8 +388,8 @@ def run(ctx):
     ctx.validated(len(sigs))
     ctx.cov["signature_evaluations"] = stats["sig_evals"]
     ctx.cov["aggregates_described"] = len({i for i, _ in descrs})
-    verd = judge_descriptors(ctx, pool, descrs)
-    audit_classify(ctx, pool, verd)
+    verd = judge_descriptors(ctx, pool, descrs, sigs[0]["valist_t"])
+    audit_classify(ctx, pool, [v for v in verd if v["i"]])
     s = sigs[len(sigs) // 2]
     ctx.sample({"signature": {x: s[x] for x in ("ret", "ps", "xs", "va")}, "expected classes": {x: s[x] for x in ("rcls", "pcls", "xcls", "marker")}})
     ctx.sample({"source": tus[0].source()[-900:]})
